@@ -1,9 +1,9 @@
 from common import COMMON_TB
 
 CFG = {
-    "technique": "Lean 4 theorem (Balance = the C01 sentence on the store's own records, for every store satisfying the representation invariant) + run-time check of the invariant and of the Ledger specification on generated consistent histories + differential run of the real wtxmgr.Store against the model with an independent Go ledger oracle",
-    "level_text": "C01_balance_partial: for every model store satisfying Inv (counter = total of mined credits without mined spender; unspent index = exactly those credits; blocks sorted; listed txs recorded), every instant, maturity, minConf and syncHeight, Balance (counter + three correction passes over three buckets) equals the C01 formula evaluated on the store's records; no double subtraction, no missed block. C01_utxos_sound/_complete: UnspentOutputs lists exactly the unspent-index entries and unconfirmed credits that are neither leased nor spent by an unconfirmed tx, with value, confirming block and coinbase flag of the recorded transaction. Inv holds initially and is preserved by every sequence of InsertTx(nil)/AddCredit(nil)/RemoveUnminedTx/Lock/Unlock/Sweep calls. Inv and Balance=formula are evaluated by the Lean driver after every op of every generated consistent history; Ledger.balance/utxos (spec) are compared with the model and with the real Go code op by op.",
-    "level_note": "PARTIAL: preservation of Inv by insertMinedTx/rollback (i.e. reachability of Inv after every consistent history) and the refinement store-records = Ledger (step_repr) are not proved; they are checked at run time on every generated history (ops `inv`, `spec probe`). Zero-value credits are outside the statement (finding F6, key rollback.zero-value-credit). The lease clock is constant during one Balance call.",
+    "technique": "Lean 4 theorem: after every chain-consistent history of store calls (reorgs included) Balance = the C01 sentence on the store's records (representation invariant proved for every operation incl. insertMinedTx and rollback) + run-time check of the Ledger specification on generated consistent histories + differential run of the real wtxmgr.Store against the model with an independent Go ledger oracle",
+    "level_text": "C01_balance: for every history of store calls satisfying chain consistency (Call.Pre, read on the store at each call: a tx is confirmed in one block, one block per height, parents first, < 2^32-1 outputs) starting from the empty store - unconfirmed/confirmed inserts with redelivery, credits, abandonments, Rollback to ANY height, reconnects, leases, sweeps, any clock values - and every instant, maturity, minConf, syncHeight: Balance (counter + three correction passes over three buckets) equals the C01 formula evaluated on the store's records. Built from C01_inv_reachable (WF2 preserved by every operation: wf2_insertMinedTx, wf2_addCredit_mined, wf2_rollback, unconfirmed/lease ops) and C01_balance_inv. C01_utxos_sound/_complete: UnspentOutputs lists exactly the unspent-index entries and unconfirmed credits that are neither leased nor spent by an unconfirmed tx, with value, confirming block and coinbase flag of the recorded transaction.",
+    "level_note": "PARTIAL only in the last link: the refinement store-records = Ledger (storeTruth = Ledger.balance, step_repr) is not proved; it is checked at run time on every generated history (ops `spec probe` vs `probe`: Lean spec = Lean model = real Go), as are the executable forms of the invariants (op `inv`). ConfirmPre.ucValid (the unconfirmed credits kept under a hash are outputs of that tx) is a precondition read on the store, not yet an invariant. Former finding F6 (zero-value credits) is fixed in /repo 7fa9939. The lease clock is constant during one Balance call.",
     "lean_props": ["BtcwVerif.Props.C01"],
     "engines": ["txstore"],
     "trusted_base": COMMON_TB + [
@@ -14,6 +14,6 @@ CFG = {
     "assumptions": [
         "amounts/heights are unbounded integers in the model (no int64/int32 overflow)",
         "hashes identify transactions; block heights >= 0",
-        "credited amounts > 0 (C01 says positive-value; the = 0 case is finding F6)",
+        "credited amounts >= 0",
     ],
 }
